@@ -7,6 +7,7 @@ Import-free.
 import CnfgenModel.Fam.Iso
 namespace Cnfgen
 namespace Fam
+namespace G2
 open Vars
 
 /-- `non_edges(G)`: pairs `u < v` that are not edges, `u` ascending then `v` ascending -/
@@ -97,5 +98,6 @@ def ramseyWitnessFormula (G : SimpleG) (k s : Int) (symbreak : Bool) : Except Er
   else if s < 0 then .error .valueError
   else .ok (ramseyWitnessCore G k.toNat symbreak)
 
+end G2
 end Fam
 end Cnfgen
